@@ -1,54 +1,39 @@
 (* C15 -- for_each applies the function once per element.
    Statements only; every proof is `exact` of a lemma from Proofs/.
    Model: Model/ForEachModel.v (thread count, chunk offsets from the staticChunkSize REGENERATED from /repo,
-   who runs which chunk).  fe_plan c = None means the call does not return normally.
-   The property is FALSE for the code as it is on the domain c15_dom (zero-thread pool, wait=false, n > 0,
-   maxThreads != 0): numThreads = min(0 + 0, maxThreads, n) = 0 and detail::staticChunkSize(n, 0) divides by zero
-   (the assert(chunks > 0) is compiled out under NDEBUG): C15_refuted.  On the complement every element is
-   visited exactly once: C15_holds_except. *)
+   who runs which chunk), describing the code AFTER the repair of the finding foreach-zero-threads-nowait-div0
+   (numThreads is clamped to >= 1; before, a zero-thread pool with wait=false reached staticChunkSize(n, 0)). *)
 From Coq Require Import ZArith List Bool Lia.
 From DV Require Import Base.MachInt Model.ChunkModel Gen.GenChunk Model.ParForModel Model.PlanModel Model.ForEachModel
   Proofs.C15Proofs.
 Import ListNotations.
 Local Open Scope Z_scope.
 
-Definition C15_full_statement : Prop :=
-  forall c, 0 <= fe_n c -> 0 <= fe_N c ->
-  exists p, fe_plan c = Some p /\ forall i, visit_count p i = if (0 <=? i) && (i <? fe_n c) then 1 else 0.
-
-(* whenever the call returns, every element of [0,n) is visited by exactly one chunk and nothing else is *)
-Theorem C15_foreach_once : forall c p, 0 <= fe_n c -> 0 <= fe_N c -> fe_plan c = Some p ->
-  forall i, visit_count p i = if (0 <=? i) && (i <? fe_n c) then 1 else 0.
+(* every element of [0,n) is visited by exactly one chunk and nothing else is -- for every n (0 included), every
+   pool size (zero-thread pools included), every maxThreads (0, 1, >= 2^31 included) and both wait modes *)
+Theorem C15_foreach_once : forall c, 0 <= fe_n c ->
+  forall i, visit_count (fe_plan c) i = if (0 <=? i) && (i <? fe_n c) then 1 else 0.
 Proof. exact C15_foreach_once_proof. Qed.
 Print Assumptions C15_foreach_once.
-
-(* n = 5 elements, zero-thread pool, maxThreads 3, wait=false *)
-Theorem C15_refuted :
-  exists c, 0 <= fe_N c /\ 0 < fe_n c /\ fe_decide c = FDivZero /\ fe_numThreads c = 0 /\ fe_plan c = None /\
-            c15_dom c = true /\ c = FE 5 0 3 false.
-Proof. exact C15_refuted_proof. Qed.
-Print Assumptions C15_refuted.
-
-Theorem C15_holds_except : forall c, 0 <= fe_n c -> 0 <= fe_N c -> c15_dom c = false ->
-  exists p, fe_plan c = Some p /\ forall i, visit_count p i = if (0 <=? i) && (i <? fe_n c) then 1 else 0.
-Proof. exact C15_holds_except_proof. Qed.
-Print Assumptions C15_holds_except.
-
-(* the domain is exact *)
-Theorem C15_domain_exact : forall c, 0 <= fe_n c -> 0 <= fe_N c -> (fe_plan c = None <-> c15_dom c = true).
-Proof. exact C15_divzero_iff_proof. Qed.
-Print Assumptions C15_domain_exact.
 
 (* every application is made inside a scheduled closure or on the calling thread before tasks.wait(); so all
    have finished when the call (wait=true) / the task set's wait() (wait=false) returns -- given the task
    set's own contract (C02) *)
-Theorem C15_nothing_deferred : forall c p, fe_plan c = Some p ->
-  forall a, In a p -> c_who a = CallerPre \/ exists j, c_who a = Task j.
+Theorem C15_nothing_deferred : forall c a, In a (fe_plan c) -> c_who a = CallerPre \/ exists j, c_who a = Task j.
 Proof. exact C15_no_deferred_proof. Qed.
 Print Assumptions C15_nothing_deferred.
 
+(* the chunk count handed to staticChunkSize is never zero (the former division by zero) and respects maxThreads *)
+Theorem C15_thread_count : forall c, 1 <= fe_numThreads c <= Z.max 1 (wrap_s 32 (fe_maxThreads c)).
+Proof. exact C15_thread_count_proof. Qed.
+Print Assumptions C15_thread_count.
+
+(* regression: the former witness (n = 5, zero-thread pool, maxThreads 3, wait=false) now has one chunk [0,5),
+   handed to scheduleBulk as closure 0 (a zero-thread pool runs it inline on the calling thread);
+   plus a non-trivial configuration *)
 Example C15_nonvacuous :
-  fe_plan (FE 10 3 8 true) =
-    Some [CALL (Task 0) 0 0 0 3; CALL (Task 1) 0 0 3 6; CALL (Task 2) 0 0 6 8; CALL CallerPre 0 0 8 10]
-  /\ c15_dom (FE 10 3 8 true) = false /\ c15_dom (FE 10 0 8 true) = false /\ c15_dom (FE 10 0 8 false) = true.
+  fe_plan (FE 5 0 3 false) = [CALL (Task 0) 0 0 0 5] /\ fe_numThreads (FE 5 0 3 false) = 1
+  /\ fe_plan (FE 5 0 3 true) = [CALL CallerPre 0 0 0 5]
+  /\ fe_plan (FE 10 3 8 true) =
+       [CALL (Task 0) 0 0 0 3; CALL (Task 1) 0 0 3 6; CALL (Task 2) 0 0 6 8; CALL CallerPre 0 0 8 10].
 Proof. vm_compute. repeat split; reflexivity. Qed.
